@@ -150,6 +150,7 @@ def get_function(qualname: str) -> FnSource:
     renamed = undo_pure_renaming(qualname, node)
     fs = FnSource(full, path, node, src, h)
     fs.renamed_locals = renamed
+    fs.restructured = restructured(qualname, node)
     fs.consts = _module_consts(tree, module)
     fs.module_funcs = {s.name: s for s in tree.body if isinstance(s, ast.FunctionDef)}
     index_function(fs)
@@ -221,9 +222,36 @@ def _canonical(node: ast.FunctionDef, names):
     return hashlib.sha256(ast.dump(c, include_attributes=False).encode()).hexdigest()
 
 
+def skeleton_of(node: ast.FunctionDef) -> str:
+    """Hash of what the positional keys of a contract depend on: the pre-order sequence of statement patterns
+    ("assign <target>", "call <callee>", if / for / while / return, other statement kinds) with their nesting depth."""
+    out = []
+
+    def visit(stmts, depth):
+        for s in stmts:
+            out.append(f"{depth}:{stmt_pattern(s) or type(s).__name__}")
+            for fld in ("body", "orelse", "finalbody"):
+                b = getattr(s, fld, None)
+                if isinstance(b, list) and b and isinstance(b[0], ast.stmt) and not isinstance(s, (ast.FunctionDef, ast.ClassDef)):
+                    out.append(f"{depth}:{fld}")
+                    visit(b, depth + 1)
+    visit(strip_doc(node.body), 0)
+    return hashlib.sha256("\n".join(out).encode()).hexdigest()
+
+
 def shape_of(node: ast.FunctionDef):
     names = _local_names(node)
-    return {"canonical": _canonical(node, names), "locals": names}
+    return {"canonical": _canonical(node, names), "locals": names, "skeleton": skeleton_of(node)}
+
+
+def restructured(qualname: str, node: ast.FunctionDef) -> bool:
+    """True if the statement skeleton of the function differs from the one the contracts were written against (recorded
+    in contracts/_shapes.json): `if#k`, loop ordinals and `after <statement> #k` keys may then sit on other statements."""
+    # (the record is loaded by undo_pure_renaming, which get_function calls first)
+    rec = (_SHAPES or {}).get(qualname.partition("#")[0])
+    if not rec or "skeleton" not in rec:
+        return False
+    return rec["skeleton"] != skeleton_of(node)
 
 
 def undo_pure_renaming(qualname: str, node: ast.FunctionDef):
